@@ -106,15 +106,25 @@ def run(cfg, faults=None, keep_events=True, workdir=None, kill_at=None):
             except FileNotFoundError:
                 out["part"] = {"st": "absent", "size": 0}
             return out
-        init = classify()
         kw = {"overwrite": cfg["overwrite"], "overwrite_part": cfg["overwrite_part"], "rm_part_on_exc": cfg["rm_part_on_exc"],
               "text_mode": cfg["text_mode"]}
         if cfg["perms"]:
             kw["file_perms"] = cfg["perms"]
+        warm, extra_fds = None, []
+        if cfg.get("warm_saver") and cfg["dest_present"] and cfg["overwrite"] and not cfg["part_present"]:
+            # a long-lived AtomicSaver that has already completed one save of this destination (unrecorded), after which
+            # the process opened a few more files: the recorded save is this object's second one
+            warm = fileutils.atomic_save(dest, **kw)
+            with warm as f:
+                f.write(OLD.decode("utf-8") if cfg["text_mode"] else OLD)
+            os.chmod(dest, 0o640)
+            dest_ino["ino"] = fsio.REAL_LSTAT(dest).st_ino
+            extra_fds = [os.open(os.path.join(d, "bystander%d.dat" % j), os.O_RDWR | os.O_CREAT, 0o600) for j in range(3)]
+        init = classify()
         raised, body_raised = "", False
         ip = fsio.Interposer(d, classify, faults)
         ip.kill_at = kill_at
-        saver = fileutils.atomic_save(dest, **kw)
+        saver = warm if warm is not None else fileutils.atomic_save(dest, **kw)
         # what tears the with-block down: an ordinary exception, or a BaseException that is not an Exception
         # (Ctrl-C, sys.exit() in the body, a generator holding the block being closed)
         body_exc = {"KeyboardInterrupt": KeyboardInterrupt, "SystemExit": SystemExit, "GeneratorExit": GeneratorExit}.get(
@@ -161,5 +171,10 @@ def run(cfg, faults=None, keep_events=True, workdir=None, kill_at=None):
         return tr
     finally:
         os.umask(old_umask)
+        for fd_ in locals().get("extra_fds", []):
+            try:
+                os.close(fd_)
+            except OSError:
+                pass
         if workdir is None:
             shutil.rmtree(d, ignore_errors=True)
